@@ -35,7 +35,32 @@ def _is_none(I, a, k):
     return v is None
 
 
+def _date_of_ordinal(I, a, k):
+    v = I.resolve(a[0])
+    if isinstance(v, int):
+        if not 1 <= v <= 3652059:
+            from .symex import PyExc
+            raise PyExc('OverflowError')
+        return SDateTime(v, 0)
+    I.p.assume(z3.And(v.t >= 1, v.t <= 3652059))
+    return SDateTime(v, 0)
+
+
+def _ordinal(I, a, k):
+    from . import libdt
+    y, m, d = [I.resolve(x) for x in a]
+    if all(isinstance(x, int) for x in (y, m, d)):
+        import datetime
+        try:
+            return datetime.date(y, m, d).toordinal()
+        except ValueError:
+            pass
+    return Sym(INT, libdt.ord_term(I, I.term(y), I.term(m), I.term(d)))
+
+
 NATIVE = {
+    'ordinal': _ordinal,
+    'date_of_ordinal': _date_of_ordinal,
     'isdigits': _isdigits,
     'total_seconds_of': _total_seconds,
     'ordinal_of': _ordinal_of,
